@@ -24,7 +24,7 @@ pub const KINDS: [Kind; 5] = [Kind::Segment, Kind::Host, Kind::UserInfo, Kind::Q
 pub fn run(ctx: &Ctx) -> Report {
 	let refs = Refs::new(&ctx.root);
 	let mut total = Report::new();
-	total.rule = "component values = all sequences of <= n tokens over {a, (é), %41, %C3, %A9, %80, %BF, %C0, %C1, %E0, %ED, %A0, %F0, %F4, %90, %F5, %FF, %2F, %25, %E2, %82, %AC} (every class of the UTF-8 decoding automaton) for Segment, Host, UserInfo, Query, Fragment of both families, stand-alone and obtained from a parsed URI/IRI; per value: bytes(), chars(), len(), decode(), == str against a list of well-formed texts, Deref, into_pct_string; non-trivial = distinct (family, component, text, embedding)".into();
+	total.rule = "component values = all sequences of <= n tokens over {a, (é), %41, %C3, %A9, %80, %BF, %C0, %C1, %E0, %ED, %A0, %F0, %F4, %90, %F5, %FF, %2F, %25, %E2, %82, %AC} (every class of the UTF-8 decoding automaton) for Segment, Host, UserInfo, Query, Fragment of both families, stand-alone and obtained from a parsed URI/IRI; per value: bytes(), chars(), len(), decode(), == str against a list of well-formed texts, Deref, into_pct_string; every ill-formed value compared (==, !=, cmp, both directions) with the well-formed text a lossy decoder would make of it; non-trivial = distinct (family, component, text, embedding)".into();
 	let n = ctx.pick(3usize, 4usize);
 	let oth = others();
 	for f in Family::active() {
@@ -48,6 +48,11 @@ pub fn run(ctx: &Ctx) -> Report {
 						r.transitions += e;
 						r.distinct_nontrivial += 1;
 						r.traces += 1;
+					}
+					if !wf {
+						let e = by_family!(f, c19_lossy_twin_case(k, t, &mut vs));
+						r.evaluations += e;
+						r.transitions += e;
 					}
 					if r.states % 7919 == 1 {
 						r.sample(by_family!(f, c19_input(k, t, false)));
